@@ -207,6 +207,8 @@ func (e *Engine) discoverComponents() {
 	add("G_held", ArrSort(SBool)) // per mutex ref
 }
 
+func (e *Engine) compNames() []string { return sortedKeys(e.CompSorts) }
+
 func sortShort(s string) string {
 	switch s {
 	case SBV8:
